@@ -1,1 +1,1026 @@
-//! C34: not implemented yet.
+//! C34 — NTPv5 Bloom filters are transferred faithfully.
+//!
+//! Engine E-SEQ (explicit-state BFS over the real `RemoteBloomFilter`) + E-IN.
+//!
+//!  1. `RemoteBloomFilter::new` over all 65 536 chunk sizes (valid = the 8 multiples of 4
+//!     that divide 512).
+//!  2. BFS to fixpoint, per valid chunk size and per server filter (a synthetic filter whose
+//!     4-byte words are pairwise distinct and non-zero, and real filters built from 1..3
+//!     `ServerId`s): events `Request(new cookie)` and `Deliver(target, shape)` with target in
+//!     {outstanding request, most recent stale request, very first request, never-issued
+//!     cookie} and shape in {exact, 4 bytes short, 4 bytes long, half, double, empty}: every
+//!     order, with duplicates and stale / mismatched answers, until the filter is complete
+//!     and through the following rounds (the state graph is finite because cookies are
+//!     canonicalised by role). After every transition the probe view of the real object is
+//!     compared with the model.
+//!  3. Membership: 4096 window ids (no false negatives, exactly 10 bits), every subset of
+//!     size 1..3 of a pool of 12 structured ids (added => contained; not added => contained
+//!     iff its indices are covered by the union), `add` / `union`.
+//!  4. `ReferenceIdRequest::to_response` over payload length 0..=600 (+ huge) x offset
+//!     0..=520 (+ huge): exact slice iff offset + length <= 512, otherwise nothing.
+//!  5. End to end: a real NTPv5 `NtpSource` polled against a real `Server`; the base run of
+//!     34 answered polls with every placement of <= 2 (quick) / <= 3 (thorough) deviations
+//!     from {answer lost, stale answer replayed before the fresh one, fresh answer
+//!     duplicated}; requests are read back from the emitted datagrams. Plus hand-framed
+//!     chunk requests (offset x length) sent to the real server.
+use std::collections::BTreeSet;
+use std::net::{IpAddr, Ipv4Addr, Ipv6Addr, SocketAddr};
+use std::sync::atomic::{AtomicU64, Ordering};
+use std::sync::{Arc, RwLock};
+
+use super::common::{self, Ctx};
+use crate::algorithm::{Measurement, ObservableSourceTimedata, SourceController};
+use crate::config::{SourceConfig, SynchronizationConfig};
+use crate::packet::v5::extension_fields::{ReferenceIdRequest, ReferenceIdResponse};
+use crate::packet::v5::server_reference_id::verif_probe::gk as pb;
+use crate::packet::v5::server_reference_id::{BloomFilter, RemoteBloomFilter, ServerId};
+use crate::server::{FilterAction, FilterList, IpSubnet, Server, ServerAction, ServerConfig, ServerReason, ServerResponse, ServerStatHandler};
+use crate::source::verif_probe::gk as ps;
+use crate::source::{NtpSource, NtpSourceAction, ProtocolVersion};
+use crate::system::{NtpManager, NtpServerInfo, NtpSnapshot, TimeSnapshot};
+use crate::time_types::{NtpDuration, NtpTimestamp, PollInterval};
+use crate::{ClockId, KeySetProvider, NtpClock, NtpLeapIndicator, NtpVersion};
+
+const VALID_SIZES: [u16; 8] = [4, 8, 16, 32, 64, 128, 256, 512];
+
+// ---------------------------------------------------------------------------------
+// server filters
+// ---------------------------------------------------------------------------------
+
+/// every aligned 4-byte word distinct and non-zero => every aligned chunk of any valid size
+/// is distinct from every other and from the all-zero initial client content
+fn synthetic_bytes() -> [u8; 512] {
+    let mut b = [0u8; 512];
+    for w in 0..128usize {
+        b[4 * w] = w as u8 + 1;
+        b[4 * w + 1] = !(w as u8);
+        b[4 * w + 2] = (w as u8) ^ 0x5A;
+        b[4 * w + 3] = 0x80 | w as u8;
+    }
+    b
+}
+
+const ID_A: [u16; 10] = [5, 100, 333, 777, 1024, 2047, 2048, 3000, 4000, 4095];
+const ID_B: [u16; 10] = [6, 101, 334, 778, 1025, 2046, 2049, 3001, 4001, 4094];
+const ID_C: [u16; 10] = [0, 1, 2, 3, 4, 7, 8, 9, 10, 11];
+
+/// (name, filter, ids that were added)
+fn server_filters() -> Vec<(&'static str, BloomFilter, Vec<[u16; 10]>)> {
+    let mut v = vec![("synthetic", pb::filter_from_bytes(synthetic_bytes()), vec![])];
+    for (name, ids) in [("id1", vec![ID_A]), ("id2", vec![ID_A, ID_B]), ("id3", vec![ID_A, ID_B, ID_C])] {
+        let mut f = BloomFilter::new();
+        for i in &ids {
+            f.add_id(&pb::server_id(*i));
+        }
+        v.push((name, f, ids));
+    }
+    v
+}
+
+// ---------------------------------------------------------------------------------
+// 1. constructor
+// ---------------------------------------------------------------------------------
+
+fn part_new(ctx: &Ctx) {
+    let mut valid = 0u64;
+    for cs in 0..=u16::MAX {
+        ctx.inc("evaluations");
+        let want = cs >= 4 && cs <= 512 && cs % 4 == 0 && 512 % cs == 0;
+        match common::catch(|| RemoteBloomFilter::new(cs).is_some()) {
+            Ok(g) if g == want => valid += g as u64,
+            Ok(g) => ctx.violation("C34:chunk-size-validation", format!("RemoteBloomFilter::new({cs}) accepted={g}, expected {want}"), format!("N;{cs}")),
+            Err(e) => ctx.violation("C34:panic", format!("RemoteBloomFilter::new({cs}) panicked: {e}"), format!("N;{cs}")),
+        }
+    }
+    ctx.set("valid_chunk_sizes", valid);
+}
+
+// ---------------------------------------------------------------------------------
+// 2. explicit-state search
+// ---------------------------------------------------------------------------------
+
+#[derive(Clone, Debug, PartialEq, Eq, Hash)]
+struct Req {
+    offset: u16,
+    cookie: u64,
+}
+
+#[derive(Clone)]
+struct Model {
+    next: u16,
+    outstanding: Option<Req>,
+    content: Vec<u8>,
+    filled: bool,
+    /// most recent request that is no longer outstanding (superseded or consumed)
+    stale: Option<Req>,
+    /// the very first request ever made
+    first: Option<Req>,
+    next_cookie: u64,
+    accepted: u32,
+}
+
+struct S {
+    real: RemoteBloomFilter,
+    model: Model,
+    hist: Vec<u8>,
+}
+
+const SHAPES: usize = 6; // exact, short, long, half, double, empty
+const TARGETS: usize = 4; // current, stale, first, fresh
+
+fn shape_len(shape: usize, cs: u16) -> Option<usize> {
+    let cs = cs as usize;
+    let l = match shape {
+        0 => cs,
+        1 => cs - 4,
+        2 => cs + 4,
+        3 => cs / 2,
+        4 => cs * 2,
+        _ => 0,
+    };
+    // ReferenceIdResponse only exists for lengths that are multiples of 4 and <= 512
+    if l % 4 != 0 || l > 512 || (shape != 0 && l == cs) {
+        return None;
+    }
+    // shapes that coincide in length are the same event
+    if shape == 5 && cs == 4 {
+        return None; // same as "short"
+    }
+    if shape == 3 && cs == 8 {
+        return None; // same as "short"
+    }
+    Some(l)
+}
+
+fn event_name(e: u8) -> String {
+    if e == 0 {
+        "Req".to_string()
+    } else {
+        let t = ((e - 1) as usize) / SHAPES;
+        let s = ((e - 1) as usize) % SHAPES;
+        format!("Deliver({},{})", ["current", "stale", "first", "fresh"][t], ["exact", "short", "long", "half", "double", "empty"][s])
+    }
+}
+
+struct SearchCtx<'a> {
+    ctx: &'a Ctx,
+    cs: u16,
+    server: &'a BloomFilter,
+    fname: &'static str,
+    transitions: AtomicU64,
+    accepted: AtomicU64,
+    rejected: AtomicU64,
+    completions: AtomicU64,
+}
+
+impl SearchCtx<'_> {
+    fn trace(&self, hist: &[u8]) -> String {
+        format!("S;{};{};{}", self.cs, self.fname, common::hex(hist))
+    }
+}
+
+/// Apply one event to (a clone of) the state; compare implementation and model. `None` =
+/// event not applicable in this state or a violation was reported (not expanded further).
+fn apply(sc: &SearchCtx, s: &S, e: u8, obs: Option<&mut Vec<String>>) -> Option<S> {
+    let cs = sc.cs;
+    let srv = sc.server.as_bytes();
+    let mut real = pb::rbf_clone(&s.real);
+    let mut m = s.model.clone();
+    let mut hist = s.hist.clone();
+    hist.push(e);
+    let tr = || sc.trace(&hist);
+    let mut note = String::new();
+    if e == 0 {
+        let cookie = m.next_cookie;
+        m.next_cookie += 1;
+        let r = match common::catch(|| real.next_request(pb::cookie(cookie))) {
+            Ok(r) => r,
+            Err(err) => {
+                sc.ctx.violation("C34:panic", format!("next_request panicked: {err}"), tr());
+                return None;
+            }
+        };
+        if r.offset() != m.next || r.payload_len() != cs {
+            sc.ctx.violation(
+                "C34:request-sequence",
+                format!("chunk size {cs}: request asks for offset {} length {}, the next missing chunk is offset {} length {cs}", r.offset(), r.payload_len(), m.next),
+                tr(),
+            );
+            return None;
+        }
+        if let Some(old) = m.outstanding.take() {
+            m.stale = Some(old);
+        }
+        let rq = Req { offset: m.next, cookie };
+        if m.first.is_none() {
+            m.first = Some(rq.clone());
+        }
+        m.outstanding = Some(rq);
+        note = format!("req(off {} len {})", r.offset(), r.payload_len());
+    } else {
+        let t = ((e - 1) as usize) / SHAPES;
+        let shape = ((e - 1) as usize) % SHAPES;
+        let len = shape_len(shape, cs)?;
+        let target: Req = match t {
+            0 => m.outstanding.clone()?,
+            1 => {
+                let st = m.stale.clone()?;
+                if Some(&st) == m.outstanding.as_ref() {
+                    return None;
+                }
+                st
+            }
+            2 => {
+                let f = m.first.clone()?;
+                if Some(&f) == m.outstanding.as_ref() || Some(&f) == m.stale.as_ref() {
+                    return None;
+                }
+                f
+            }
+            _ => Req { offset: 0, cookie: u64::MAX - 7 },
+        };
+        // an honest server's answer to `target`: the bytes at the target's offset
+        let start = target.offset as usize;
+        let mut bytes = vec![0xEEu8; len];
+        for (i, b) in bytes.iter_mut().enumerate() {
+            if start + i < 512 {
+                *b = srv[start + i];
+            }
+        }
+        let resp = ReferenceIdResponse::new(&bytes)?;
+        let expect_accept = t == 0 && shape == 0;
+        let got = match common::catch(|| real.handle_response(pb::cookie(target.cookie), &resp).is_ok()) {
+            Ok(g) => g,
+            Err(err) => {
+                sc.ctx.violation("C34:panic", format!("handle_response panicked: {err}"), tr());
+                return None;
+            }
+        };
+        note = format!("{} -> {}", event_name(e), if got { "accepted" } else { "rejected" });
+        let side = if got { &sc.accepted } else { &sc.rejected };
+        side.fetch_add(1, Ordering::Relaxed);
+        if got && !expect_accept {
+            let class = if t != 0 { "C34:stale-answer-accepted" } else { "C34:wrong-size-accepted" };
+            sc.ctx.violation(
+                class,
+                format!("chunk size {cs}: answer to the {} request with {len} bytes was accepted (outstanding: {:?})", ["current", "stale", "first", "never issued"][t], m.outstanding),
+                tr(),
+            );
+            return None;
+        }
+        if !got && expect_accept {
+            sc.ctx.violation("C34:valid-answer-rejected", format!("chunk size {cs}: the exact answer to the outstanding request {:?} was rejected", m.outstanding), tr());
+            return None;
+        }
+        if expect_accept {
+            let o = target.offset as usize;
+            m.content[o..o + cs as usize].copy_from_slice(&srv[o..o + cs as usize]);
+            m.accepted += 1;
+            m.stale = m.outstanding.take();
+            m.next = ((m.next as usize + cs as usize) % 512) as u16;
+            if m.next == 0 {
+                if !m.filled {
+                    sc.completions.fetch_add(1, Ordering::Relaxed);
+                }
+                m.filled = true;
+            }
+        }
+    }
+    sc.transitions.fetch_add(1, Ordering::Relaxed);
+    // compare the whole visible state
+    let v = pb::rbf_view(&real);
+    if v.filter != m.content {
+        let pos = v.filter.iter().zip(m.content.iter()).position(|(a, b)| a != b).unwrap_or(0);
+        sc.ctx.violation(
+            "C34:chunk-written-wrongly",
+            format!("chunk size {cs}: after {} the client's filter differs from what the accepted answers say (first difference at byte {pos})", event_name(e)),
+            tr(),
+        );
+        return None;
+    }
+    if v.next_to_request != m.next || v.last_requested != m.outstanding.as_ref().map(|r| (r.offset, r.cookie.to_be_bytes())) {
+        sc.ctx.violation(
+            "C34:request-sequence",
+            format!("chunk size {cs}: after {} cursor/outstanding = {}/{:?}, model {}/{:?}", event_name(e), v.next_to_request, v.last_requested, m.next, m.outstanding),
+            tr(),
+        );
+        return None;
+    }
+    let full = real.full_filter().map(|f| *f.as_bytes());
+    match (&full, m.filled) {
+        (Some(f), _) if f != srv => {
+            sc.ctx.violation("C34:full-filter-wrong", format!("chunk size {cs}: full_filter() is Some but differs from the server's filter ({} chunks answered)", m.accepted), tr());
+            return None;
+        }
+        (None, true) => {
+            sc.ctx.violation("C34:full-filter-missing", format!("chunk size {cs}: all {} chunks were answered but full_filter() is None", 512 / cs as usize), tr());
+            return None;
+        }
+        _ => {}
+    }
+    if let Some(o) = obs {
+        o.push(format!("{note} next={} filled={} full={}", v.next_to_request, v.is_filled, full.is_some()));
+    }
+    Some(S { real, model: m, hist })
+}
+
+#[derive(PartialEq, Eq, Hash)]
+struct Key {
+    view_next: u16,
+    view_filled: bool,
+    view_last: Option<(u16, u8)>,
+    filter_hash: u64,
+    m_next: u16,
+    m_filled: bool,
+    m_out: Option<u16>,
+    m_stale: Option<u16>,
+    m_first_live: bool,
+    content_hash: u64,
+}
+
+fn key(s: &S) -> Key {
+    let v = pb::rbf_view(&s.real);
+    let m = &s.model;
+    let role = |c: [u8; 8]| -> u8 {
+        let c = u64::from_be_bytes(c);
+        if m.outstanding.as_ref().map(|r| r.cookie) == Some(c) {
+            1
+        } else if m.stale.as_ref().map(|r| r.cookie) == Some(c) {
+            2
+        } else if m.first.as_ref().map(|r| r.cookie) == Some(c) {
+            3
+        } else {
+            9
+        }
+    };
+    let first_live = match &m.first {
+        Some(f) => Some(f) != m.outstanding.as_ref() && Some(f) != m.stale.as_ref(),
+        None => false,
+    };
+    Key {
+        view_next: v.next_to_request,
+        view_filled: v.is_filled,
+        view_last: v.last_requested.map(|(o, c)| (o, role(c))),
+        filter_hash: common::hash_of(&v.filter),
+        m_next: m.next,
+        m_filled: m.filled,
+        m_out: m.outstanding.as_ref().map(|r| r.offset),
+        m_stale: m.stale.as_ref().map(|r| r.offset),
+        m_first_live: first_live,
+        content_hash: common::hash_of(&m.content),
+    }
+}
+
+fn initial(cs: u16) -> S {
+    S {
+        real: RemoteBloomFilter::new(cs).expect("valid chunk size"),
+        model: Model { next: 0, outstanding: None, content: vec![0; 512], filled: false, stale: None, first: None, next_cookie: 1, accepted: 0 },
+        hist: vec![],
+    }
+}
+
+fn part_search(ctx: &Ctx) {
+    let filters = server_filters();
+    let sizes: Vec<u16> = VALID_SIZES.to_vec();
+    let jobs: Vec<(u16, usize)> = sizes.iter().flat_map(|cs| (0..filters.len()).map(move |f| (*cs, f))).collect();
+    let states = AtomicU64::new(0);
+    let transitions = AtomicU64::new(0);
+    let depth = AtomicU64::new(0);
+    common::par_for(jobs.len() as u64, 1, |j| {
+        let (cs, fi) = jobs[j as usize];
+        let (fname, server, ids) = &filters[fi];
+        let sc = SearchCtx { ctx, cs, server, fname, transitions: AtomicU64::new(0), accepted: AtomicU64::new(0), rejected: AtomicU64::new(0), completions: AtomicU64::new(0) };
+        let stats = common::bfs(
+            vec![initial(cs)],
+            key,
+            |s, _d| {
+                let mut out = Vec::new();
+                for e in 0..=(TARGETS * SHAPES) as u8 {
+                    if let Some(n) = apply(&sc, s, e, None) {
+                        // when the transfer is complete every added id must be reported
+                        if n.model.filled && !s.model.filled {
+                            if let Some(full) = n.real.full_filter() {
+                                for id in ids {
+                                    if !full.contains_id(&pb::server_id(*id)) {
+                                        ctx.violation("C34:false-negative", format!("transferred filter does not contain the added id {id:?}"), sc.trace(&n.hist));
+                                    }
+                                }
+                            }
+                        }
+                        out.push(n);
+                    }
+                }
+                out
+            },
+            4096,
+        );
+        if !stats.fixpoint {
+            ctx.cap_hit(&format!("chunk size {cs}/{fname}: BFS stopped at depth 4096 without reaching the fixpoint"));
+        }
+        states.fetch_add(stats.states, Ordering::Relaxed);
+        transitions.fetch_add(sc.transitions.load(Ordering::Relaxed), Ordering::Relaxed);
+        depth.fetch_max(stats.max_depth, Ordering::Relaxed);
+        ctx.add("answers_accepted", sc.accepted.load(Ordering::Relaxed));
+        ctx.add("answers_rejected", sc.rejected.load(Ordering::Relaxed));
+        ctx.add("transfers_completed_first_time", sc.completions.load(Ordering::Relaxed));
+        ctx.add(&format!("states_chunk_{cs}"), stats.states);
+        ctx.distinct(common::hash_of(&("S", cs, fname)));
+        if fi == 0 {
+            ctx.sample(format!("chunk size {cs}, {fname} filter: {} states, {} transitions, fixpoint at depth {}", stats.states, sc.transitions.load(Ordering::Relaxed), stats.max_depth));
+        }
+    });
+    ctx.add("states", states.load(Ordering::Relaxed));
+    ctx.add("transitions", transitions.load(Ordering::Relaxed));
+    ctx.set("bfs_transitions", transitions.load(Ordering::Relaxed));
+    ctx.add("evaluations", transitions.load(Ordering::Relaxed));
+    ctx.max("bfs_max_depth", depth.load(Ordering::Relaxed));
+}
+
+fn replay_search(ctx: &Ctx, cs: u16, fname: &str, events: &[u8]) -> String {
+    let filters = server_filters();
+    let Some((name, server, _)) = filters.iter().find(|f| f.0 == fname) else { return "unknown filter".into() };
+    if !VALID_SIZES.contains(&cs) {
+        return "invalid chunk size".into();
+    }
+    let sc = SearchCtx { ctx, cs, server, fname: name, transitions: AtomicU64::new(0), accepted: AtomicU64::new(0), rejected: AtomicU64::new(0), completions: AtomicU64::new(0) };
+    let mut s = initial(cs);
+    let mut obs = Vec::new();
+    for &e in events {
+        match apply(&sc, &s, e, Some(&mut obs)) {
+            Some(n) => s = n,
+            None => {
+                obs.push(format!("{} -> stop (not applicable or violation)", event_name(e)));
+                break;
+            }
+        }
+    }
+    obs.join(" | ")
+}
+
+// ---------------------------------------------------------------------------------
+// 3. membership
+// ---------------------------------------------------------------------------------
+
+fn part_membership(ctx: &Ctx) {
+    // (a) every index position: window ids i..i+9 (mod 4096)
+    for i in 0..4096u32 {
+        let idx: [u16; 10] = core::array::from_fn(|k| ((i + k as u32) % 4096) as u16);
+        let next: [u16; 10] = core::array::from_fn(|k| ((i + 1 + k as u32) % 4096) as u16);
+        let id = pb::server_id(idx);
+        let mut f = BloomFilter::new();
+        ctx.add("evaluations", 4);
+        if f.contains_id(&id) {
+            ctx.violation("C34:membership-wrong", format!("empty filter reports id {idx:?}"), format!("M;{i}"));
+        }
+        f.add_id(&id);
+        if !f.contains_id(&id) {
+            ctx.violation("C34:false-negative", format!("filter does not report the id {idx:?} just added"), format!("M;{i}"));
+        }
+        if f.count_ones() != 10 || f.as_bytes().iter().map(|b| b.count_ones()).sum::<u32>() != 10 {
+            ctx.violation("C34:membership-wrong", format!("adding an id with 10 distinct indices set {} bits", f.count_ones()), format!("M;{i}"));
+        }
+        if f.contains_id(&pb::server_id(next)) {
+            ctx.violation("C34:membership-wrong", format!("filter with only {idx:?} reports {next:?}"), format!("M;{i}"));
+        }
+    }
+    // (b) subsets of a pool
+    let pool: Vec<[u16; 10]> = vec![
+        ID_A,
+        ID_B,
+        ID_C,
+        [5, 100, 333, 777, 1024, 2047, 2048, 3000, 4000, 4092],          // shares 9 indices with ID_A
+        [5, 100, 333, 777, 1024, 2046, 2049, 3001, 4001, 4094],          // half ID_A, half ID_B: covered by {A, B}
+        [4086, 4087, 4088, 4089, 4090, 4091, 4092, 4093, 4094, 4095],
+        [0, 2, 4, 6, 8, 10, 12, 14, 16, 18],
+        [0, 1, 2, 3, 4, 5, 6, 7, 4088, 4095],
+        [5, 5, 5, 5, 5, 5, 5, 5, 5, 5],                                  // degenerate (never produced by ServerId::new)
+        [7, 15, 23, 31, 39, 47, 55, 63, 71, 79],                         // top bit of ten consecutive bytes
+        [8, 16, 24, 32, 40, 48, 56, 64, 72, 80],                         // bottom bit of ten consecutive bytes
+        [1000, 1001, 1002, 1003, 1004, 1005, 1006, 1007, 1008, 1009],
+    ];
+    let n = pool.len();
+    let mut subsets: Vec<Vec<usize>> = Vec::new();
+    for a in 0..n {
+        subsets.push(vec![a]);
+        for b in a + 1..n {
+            subsets.push(vec![a, b]);
+            for c in b + 1..n {
+                subsets.push(vec![a, b, c]);
+            }
+        }
+    }
+    ctx.set("membership_subsets", subsets.len() as u64);
+    let mut contained = 0u64;
+    let mut not_contained = 0u64;
+    let mut legit_false_positive = 0u64;
+    for sub in &subsets {
+        let mut f = BloomFilter::new();
+        let mut parts = Vec::new();
+        let mut union: BTreeSet<u16> = BTreeSet::new();
+        for &k in sub {
+            f.add_id(&pb::server_id(pool[k]));
+            let mut single = BloomFilter::new();
+            single.add_id(&pb::server_id(pool[k]));
+            parts.push(single);
+            union.extend(pool[k].iter().copied());
+        }
+        let via_union = BloomFilter::union(parts.iter());
+        let via_collect: BloomFilter = parts.iter().collect();
+        let mut via_add = BloomFilter::new();
+        for p_ in &parts {
+            via_add.add(p_);
+        }
+        let tr = format!("P;{}", sub.iter().map(|k| k.to_string()).collect::<Vec<_>>().join(","));
+        ctx.add("evaluations", 3 + n as u64);
+        if via_union != f || via_collect != f || via_add != f {
+            ctx.violation("C34:union-wrong", format!("union of the single-id filters of {sub:?} differs from adding the ids to one filter"), tr.clone());
+        }
+        if f.count_ones() as usize != union.len() {
+            ctx.violation("C34:membership-wrong", format!("ids {sub:?}: {} bits set for {} distinct indices", f.count_ones(), union.len()), tr.clone());
+        }
+        for k in 0..n {
+            let want = pool[k].iter().all(|i| union.contains(i));
+            let got = f.contains_id(&pb::server_id(pool[k]));
+            if sub.contains(&k) && !got {
+                ctx.violation("C34:false-negative", format!("filter built from pool ids {sub:?} does not report id {k} ({:?})", pool[k]), tr.clone());
+            } else if got != want {
+                ctx.violation("C34:membership-wrong", format!("filter built from pool ids {sub:?}: contains_id(pool {k}) = {got}, index cover says {want}"), tr.clone());
+            }
+            if got {
+                contained += 1;
+                if !sub.contains(&k) {
+                    legit_false_positive += 1;
+                }
+            } else {
+                not_contained += 1;
+            }
+        }
+        ctx.distinct(common::hash_of(&("P", sub)));
+    }
+    ctx.set("membership_reported", contained);
+    ctx.set("membership_not_reported", not_contained);
+    ctx.set("membership_covered_but_not_added", legit_false_positive);
+    // (c) ids from the crate's own generator: sorted, distinct, < 4096, contained after add
+    for _ in 0..64 {
+        let id = ServerId::default();
+        let idx = pb::server_id_indices(&id);
+        ctx.add("evaluations", 1);
+        let mut f = BloomFilter::new();
+        f.add_id(&id);
+        let distinct: BTreeSet<u16> = idx.iter().copied().collect();
+        if !f.contains_id(&id) || distinct.len() != 10 || idx.iter().any(|v| *v > 4095) || f.count_ones() != 10 {
+            ctx.violation("C34:false-negative", format!("generated id {idx:?}: not reported after add / malformed"), "G;0");
+        }
+    }
+}
+
+// ---------------------------------------------------------------------------------
+// 4. server side slice
+// ---------------------------------------------------------------------------------
+
+fn part_to_response(ctx: &Ctx) {
+    let filter = pb::filter_from_bytes(synthetic_bytes());
+    let bytes = synthetic_bytes();
+    let mut lens: Vec<usize> = (0..=600).collect();
+    lens.extend([1024, 4096, 32768, 65532, 65535]);
+    let mut offs: Vec<u16> = (0..=520).collect();
+    offs.extend([600, 1000, 1024, 32767, 32768, 65024, 65532, 65535]);
+    let some = AtomicU64::new(0);
+    let none = AtomicU64::new(0);
+    let ctor_some = AtomicU64::new(0);
+    common::par_for(lens.len() as u64, 8, |li| {
+        let len = lens[li as usize];
+        let mut msg = vec![0u8; len];
+        for &off in &offs {
+            let want: Option<&[u8]> = if off as usize + len <= 512 { Some(&bytes[off as usize..off as usize + len]) } else { None };
+            // request as the server sees it: decoded from the wire (needs the 2 offset bytes)
+            if len >= 2 {
+                msg[0..2].copy_from_slice(&off.to_be_bytes());
+                match common::catch(|| ReferenceIdRequest::decode(&msg).ok().map(|r| (r.offset(), r.payload_len(), r.to_response(&filter).map(|x| x.bytes().to_vec())))) {
+                    Ok(Some((o, l, got))) => {
+                        if o != off || l as usize != len {
+                            ctx.violation("C34:request-decode", format!("decoded request says offset {o} length {l}, wire says {off}/{len}"), format!("T;{len};{off}"));
+                        }
+                        if got.as_deref() != want {
+                            ctx.violation(
+                                "C34:server-slice-wrong",
+                                format!("request offset {off} length {len}: answer {:?} bytes, expected {:?}", got.as_ref().map(|g| g.len()), want.map(|w| w.len())),
+                                format!("T;{len};{off}"),
+                            );
+                        }
+                        let side = if got.is_some() { &some } else { &none };
+                        side.fetch_add(1, Ordering::Relaxed);
+                    }
+                    Ok(None) => ctx.violation("C34:request-decode", format!("request body of {len} bytes not decodable"), format!("T;{len};{off}")),
+                    Err(e) => ctx.violation("C34:panic", format!("to_response(offset {off}, length {len}) panicked: {e}"), format!("T;{len};{off}")),
+                }
+            }
+            // request as a client builds it
+            if len <= u16::MAX as usize {
+                match common::catch(|| ReferenceIdRequest::new(len as u16, off).map(|r| r.to_response(&filter).map(|x| x.bytes().to_vec()))) {
+                    Ok(Some(got)) => {
+                        ctor_some.fetch_add(1, Ordering::Relaxed);
+                        if got.as_deref() != want {
+                            ctx.violation("C34:server-slice-wrong", format!("constructed request offset {off} length {len}: answer differs from the exact slice / nothing"), format!("T;{len};{off}"));
+                        }
+                    }
+                    Ok(None) => {
+                        // refusing to build a request is always safe; a valid chunk request must be constructible
+                        if len % 4 == 0 && off as usize + len <= 512 {
+                            ctx.violation("C34:request-constructor", format!("ReferenceIdRequest::new({len}, {off}) refused a valid chunk request"), format!("T;{len};{off}"));
+                        }
+                    }
+                    Err(e) => ctx.violation("C34:panic", format!("ReferenceIdRequest::new({len}, {off}) panicked: {e}"), format!("T;{len};{off}")),
+                }
+            }
+        }
+        ctx.add("evaluations", 2 * offs.len() as u64);
+    });
+    ctx.set("server_slices_answered", some.load(Ordering::Relaxed));
+    ctx.set("server_slices_refused", none.load(Ordering::Relaxed));
+    ctx.set("client_requests_constructed", ctor_some.load(Ordering::Relaxed));
+}
+
+// ---------------------------------------------------------------------------------
+// 5. end to end
+// ---------------------------------------------------------------------------------
+
+#[derive(Default)]
+struct NullCtl;
+impl SourceController for NullCtl {
+    fn handle_measurement(&mut self, _m: Measurement) {}
+    fn set_usable(&mut self, _u: bool) {}
+    fn desired_poll_interval(&self) -> PollInterval {
+        PollInterval::default()
+    }
+    fn observe(&self) -> ObservableSourceTimedata {
+        ObservableSourceTimedata::default()
+    }
+}
+
+#[derive(Clone, Debug, Default)]
+struct FixedClock;
+impl NtpClock for FixedClock {
+    type Error = std::io::Error;
+    fn now(&self) -> Result<NtpTimestamp, Self::Error> {
+        Ok(NtpTimestamp::from_fixed_int(0xE000_0000_0000_0300))
+    }
+    fn set_frequency(&self, _freq: f64) -> Result<NtpTimestamp, Self::Error> {
+        unreachable!()
+    }
+    fn get_frequency(&self) -> Result<f64, Self::Error> {
+        Ok(0.0)
+    }
+    fn step_clock(&self, _offset: NtpDuration) -> Result<NtpTimestamp, Self::Error> {
+        unreachable!()
+    }
+    fn disable_ntp_algorithm(&self) -> Result<(), Self::Error> {
+        Ok(())
+    }
+    fn error_estimate_update(&self, _e: NtpDuration, _m: NtpDuration) -> Result<(), Self::Error> {
+        Ok(())
+    }
+    fn status_update(&self, _l: NtpLeapIndicator) -> Result<(), Self::Error> {
+        Ok(())
+    }
+}
+
+struct NoStats;
+impl ServerStatHandler for NoStats {
+    fn register(&mut self, _v: u8, _n: bool, _r: ServerReason, _s: ServerResponse) {}
+}
+
+fn make_server(filter: BloomFilter) -> Server<FixedClock> {
+    let info = Arc::new(RwLock::new(NtpServerInfo {
+        time_snapshot: TimeSnapshot { leap_indicator: NtpLeapIndicator::NoWarning, ..TimeSnapshot::default() },
+        ntp_snapshot: NtpSnapshot { stratum: 2, reference_id: crate::identifiers::ReferenceId::NONE, bloom_filter: filter },
+    }));
+    let config = ServerConfig {
+        denylist: FilterList { filter: vec![], action: FilterAction::Deny },
+        allowlist: FilterList {
+            filter: vec![IpSubnet { addr: IpAddr::V4(Ipv4Addr::UNSPECIFIED), mask: 0 }, IpSubnet { addr: IpAddr::V6(Ipv6Addr::UNSPECIFIED), mask: 0 }],
+            action: FilterAction::Ignore,
+        },
+        rate_limiting_cache_size: 0,
+        rate_limiting_cutoff: std::time::Duration::from_secs(0),
+        require_nts: None,
+        accepted_versions: vec![NtpVersion::V4, NtpVersion::V5],
+    };
+    Server::new_internal(config, FixedClock, info, KeySetProvider::new(1).get())
+}
+
+/// Walk the extension fields after the 48-byte header: (type, body start, body end, field end).
+fn walk_efs(d: &[u8]) -> Vec<(u16, usize, usize, usize)> {
+    let mut v = Vec::new();
+    let mut p = 48;
+    while p + 4 <= d.len() {
+        let ty = u16::from_be_bytes([d[p], d[p + 1]]);
+        let len = u16::from_be_bytes([d[p + 2], d[p + 3]]) as usize;
+        if len < 4 || p + len > d.len() {
+            break;
+        }
+        let end = p + ((len + 3) & !3);
+        v.push((ty, p + 4, p + len, end.min(d.len())));
+        p = end;
+    }
+    v
+}
+
+const T_REQ: u16 = 0xF503;
+const T_RESP: u16 = 0xF504;
+
+fn poll_request(src: &mut NtpSource<NullCtl>) -> Option<Vec<u8>> {
+    let mut req = None;
+    for a in src.handle_timer() {
+        if let NtpSourceAction::Send(b) = a {
+            req = Some(b);
+        }
+    }
+    req
+}
+
+fn serve(server: &mut Server<FixedClock>, req: &[u8]) -> Option<Vec<u8>> {
+    let mut buf = vec![0u8; req.len().max(48)];
+    match server.handle(IpAddr::V4(Ipv4Addr::new(192, 0, 2, 17)), NtpTimestamp::from_fixed_int(0xE000_0000_0000_0200), req, &mut buf, &mut NoStats) {
+        ServerAction::Respond { message } => Some(message.to_vec()),
+        ServerAction::Ignore => None,
+    }
+}
+
+fn deliver(src: &mut NtpSource<NullCtl>, resp: &[u8]) {
+    for _ in src.handle_incoming(resp, NtpTimestamp::from_fixed_int(0xE000_0000_0000_0100), NtpTimestamp::from_fixed_int(0xE000_0000_0000_0400)) {}
+}
+
+/// deviation kinds at a poll position: 1 = answer lost, 2 = previous answer replayed before
+/// the fresh one, 3 = fresh answer delivered twice
+fn run_e2e(ctx: &Ctx, devs: &[(usize, u8)], polls: usize) -> String {
+    let trace = format!("E;{polls};{}", devs.iter().map(|(p_, k)| format!("{p_}:{k}")).collect::<Vec<_>>().join(","));
+    let filter = pb::filter_from_bytes(synthetic_bytes());
+    let mut server = make_server(filter);
+    let mgr = NtpManager::new(SynchronizationConfig::default(), vec![IpAddr::V4(Ipv4Addr::new(192, 0, 2, 17))].into());
+    let (mut src, _) = mgr.new_source(SocketAddr::new(IpAddr::V4(Ipv4Addr::new(198, 51, 100, 9)), 123), SourceConfig::default(), ProtocolVersion::V5, NullCtl, None, ClockId::new());
+    let mut answered = 0usize;
+    let mut prev_resp: Option<Vec<u8>> = None;
+    let mut obs = String::new();
+    for i in 0..polls {
+        let kind = devs.iter().find(|(p_, _)| *p_ == i).map(|(_, k)| *k).unwrap_or(0);
+        let Some(req) = poll_request(&mut src) else {
+            obs.push('R');
+            break;
+        };
+        ctx.inc("transitions");
+        // the chunk request on the wire: the next missing chunk
+        let efs = walk_efs(&req);
+        let rq: Vec<_> = efs.iter().filter(|e| e.0 == T_REQ).collect();
+        let want_off = (16 * (answered % 32)) as u16;
+        if rq.len() != 1 || rq[0].2 - rq[0].1 != 16 || u16::from_be_bytes([req[rq[0].1], req[rq[0].1 + 1]]) != want_off {
+            ctx.violation(
+                "C34:request-sequence",
+                format!("poll {i}: datagram carries {} chunk requests{}; expected one for offset {want_off} length 16", rq.len(), rq.first().map(|r| format!(" (offset {} length {})", u16::from_be_bytes([req[r.1], req[r.1 + 1]]), r.2 - r.1)).unwrap_or_default()),
+                &trace,
+            );
+            return obs;
+        }
+        let resp = serve(&mut server, &req);
+        match (&resp, kind) {
+            (None, _) => {
+                ctx.violation("C34:server-refuses-valid-chunk", format!("poll {i}: the server ignored a well-formed NTPv5 poll"), &trace);
+                return obs;
+            }
+            (Some(_), 1) => obs.push('l'),
+            (Some(r), 2) => {
+                if let Some(p_) = &prev_resp {
+                    deliver(&mut src, p_);
+                }
+                deliver(&mut src, r);
+                answered += 1;
+                obs.push('s');
+            }
+            (Some(r), 3) => {
+                deliver(&mut src, r);
+                deliver(&mut src, r);
+                answered += 1;
+                obs.push('d');
+            }
+            (Some(r), _) => {
+                deliver(&mut src, r);
+                answered += 1;
+                obs.push('a');
+            }
+        }
+        if let Some(r) = &resp {
+            // the server's answer carries exactly the requested slice
+            let chunk: Vec<_> = walk_efs(r).into_iter().filter(|e| e.0 == T_RESP).collect();
+            let o = want_off as usize;
+            if chunk.len() != 1 || r[chunk[0].1..chunk[0].2] != synthetic_bytes()[o..o + 16] {
+                ctx.violation("C34:server-slice-wrong", format!("poll {i}: answer does not carry exactly bytes {o}..{} of the filter", o + 16), &trace);
+                return obs;
+            }
+        }
+        prev_resp = resp;
+        let v = ps::view(&src);
+        ctx.inc("evaluations");
+        match (&v.bloom_full, answered >= 32) {
+            (Some(f), _) if f[..] != synthetic_bytes()[..] => {
+                ctx.violation("C34:full-filter-wrong", format!("poll {i}: the source holds a complete filter that differs from the server's ({answered} chunks answered)"), &trace);
+                return obs;
+            }
+            (None, true) => {
+                ctx.violation("C34:full-filter-missing", format!("poll {i}: {answered} chunk answers delivered but the source has no complete filter"), &trace);
+                return obs;
+            }
+            (Some(_), true) => obs.push('F'),
+            _ => {}
+        }
+    }
+    obs
+}
+
+fn part_e2e(ctx: &Ctx) {
+    let polls = 36usize;
+    let maxdev = if ctx.quick() { 2 } else { 3 };
+    let slots: Vec<(usize, u8)> = (0..polls).flat_map(|p_| (1..=3u8).map(move |k| (p_, k))).collect();
+    let mut runs: Vec<Vec<(usize, u8)>> = vec![vec![]];
+    for a in 0..slots.len() {
+        runs.push(vec![slots[a]]);
+        if maxdev >= 2 {
+            for b in a + 1..slots.len() {
+                if slots[b].0 == slots[a].0 {
+                    continue;
+                }
+                runs.push(vec![slots[a], slots[b]]);
+                if maxdev >= 3 {
+                    for c in b + 1..slots.len() {
+                        if slots[c].0 == slots[b].0 {
+                            continue;
+                        }
+                        runs.push(vec![slots[a], slots[b], slots[c]]);
+                    }
+                }
+            }
+        }
+    }
+    ctx.set("e2e_runs", runs.len() as u64);
+    let completed = AtomicU64::new(0);
+    common::par_for_with(
+        runs.len() as u64,
+        16,
+        || tokio::runtime::Builder::new_current_thread().enable_time().start_paused(true).build().expect("runtime"),
+        |rt, i| {
+            let devs = &runs[i as usize];
+            let o = rt.block_on(async { run_e2e(ctx, devs, polls) });
+            if o.contains('F') {
+                completed.fetch_add(1, Ordering::Relaxed);
+            }
+            ctx.distinct(common::hash_of(&("E", devs)));
+            if i % 1499 == 3 {
+                ctx.sample(format!("deviations {devs:?}: {o}"));
+            }
+        },
+    );
+    ctx.set("e2e_runs_reaching_full_filter", completed.load(Ordering::Relaxed));
+}
+
+/// hand-framed chunk requests sent to the real server
+fn part_server_wire(ctx: &Ctx) {
+    let filter = pb::filter_from_bytes(synthetic_bytes());
+    let bytes = synthetic_bytes();
+    // a genuine NTPv5 poll as template; its chunk request is the last extension field
+    let template = super::block_on_paused(async {
+        let mgr = NtpManager::new(SynchronizationConfig::default(), vec![IpAddr::V4(Ipv4Addr::new(192, 0, 2, 17))].into());
+        let (mut src, _) = mgr.new_source(SocketAddr::new(IpAddr::V4(Ipv4Addr::new(198, 51, 100, 9)), 123), SourceConfig::default(), ProtocolVersion::V5, NullCtl, None, ClockId::new());
+        poll_request(&mut src).expect("poll")
+    });
+    let efs = walk_efs(&template);
+    let Some(last) = efs.last().filter(|e| e.0 == T_REQ && e.3 == template.len()) else {
+        ctx.violation("C34:request-sequence", "the chunk request is not the last extension field of an NTPv5 poll (harness template assumption)", "W;0;0");
+        return;
+    };
+    let head = template[..last.1 - 4].to_vec();
+    let mut offs: Vec<u16> = (0..=512).step_by(4).collect();
+    offs.extend([1, 2, 3, 17, 510, 511, 513, 516, 1024, 65535]);
+    let lens: Vec<usize> = (4..=516).step_by(4).collect();
+    let exact = AtomicU64::new(0);
+    let without = AtomicU64::new(0);
+    let ignored = AtomicU64::new(0);
+    common::par_for(offs.len() as u64, 1, |oi| {
+        let off = offs[oi as usize];
+        let mut server = make_server(filter);
+        for &len in &lens {
+            let mut req = head.clone();
+            req.extend_from_slice(&T_REQ.to_be_bytes());
+            req.extend_from_slice(&((len + 4) as u16).to_be_bytes());
+            let mut body = vec![0u8; len];
+            body[0..2].copy_from_slice(&off.to_be_bytes());
+            req.extend_from_slice(&body);
+            ctx.add("evaluations", 1);
+            let tr = format!("W;{len};{off}");
+            let in_range = off as usize + len <= 512;
+            match common::catch(|| serve(&mut server, &req)) {
+                Err(e) => ctx.violation("C34:panic", format!("server panicked on a chunk request offset {off} length {len}: {e}"), tr),
+                Ok(None) => {
+                    ignored.fetch_add(1, Ordering::Relaxed);
+                    // extension fields shorter than 16 octets are not valid NTP extension fields at all
+                    if in_range && len + 4 >= 16 {
+                        ctx.violation("C34:server-refuses-valid-chunk", format!("server ignored a poll asking for offset {off} length {len}"), tr);
+                    }
+                }
+                Ok(Some(r)) => {
+                    let chunk: Vec<_> = walk_efs(&r).into_iter().filter(|e| e.0 == T_RESP).collect();
+                    match chunk.len() {
+                        0 => {
+                            without.fetch_add(1, Ordering::Relaxed);
+                            if in_range {
+                                ctx.violation("C34:server-refuses-valid-chunk", format!("server answered the poll but left out the chunk offset {off} length {len}"), tr);
+                            }
+                        }
+                        1 => {
+                            let got = &r[chunk[0].1..chunk[0].2];
+                            if !in_range || got != &bytes[off as usize..off as usize + len] {
+                                ctx.violation("C34:server-slice-wrong", format!("server answered offset {off} length {len} with {} bytes that are not the requested slice", got.len()), tr);
+                            } else {
+                                exact.fetch_add(1, Ordering::Relaxed);
+                            }
+                        }
+                        k => ctx.violation("C34:server-slice-wrong", format!("server answered one chunk request with {k} chunk fields"), tr),
+                    }
+                }
+            }
+        }
+    });
+    ctx.set("wire_requests_answered_exact", exact.load(Ordering::Relaxed));
+    ctx.set("wire_requests_answered_without_chunk", without.load(Ordering::Relaxed));
+    ctx.set("wire_requests_ignored", ignored.load(Ordering::Relaxed));
+}
+
+// ---------------------------------------------------------------------------------
+
+fn replay(ctx: &Ctx, trace: &str) -> String {
+    let p: Vec<&str> = trace.split(';').collect();
+    match p[0] {
+        "S" => {
+            let cs: u16 = p.get(1).and_then(|s| s.parse().ok()).unwrap_or(16);
+            let ev = common::unhex(p.get(3).copied().unwrap_or("")).unwrap_or_default();
+            replay_search(ctx, cs, p.get(2).copied().unwrap_or("synthetic"), &ev)
+        }
+        "E" => {
+            let polls: usize = p.get(1).and_then(|s| s.parse().ok()).unwrap_or(36);
+            let devs: Vec<(usize, u8)> = p
+                .get(2)
+                .map(|s| s.split(',').filter_map(|d| d.split_once(':')).filter_map(|(a, b)| Some((a.parse().ok()?, b.parse().ok()?))).collect())
+                .unwrap_or_default();
+            super::block_on_paused(async { run_e2e(ctx, &devs, polls) })
+        }
+        "N" => {
+            let cs: u16 = p.get(1).and_then(|s| s.parse().ok()).unwrap_or(0);
+            format!("new({cs}) = {:?}", common::catch(|| RemoteBloomFilter::new(cs).is_some()))
+        }
+        "T" => {
+            let len: usize = p.get(1).and_then(|s| s.parse().ok()).unwrap_or(0);
+            let off: u16 = p.get(2).and_then(|s| s.parse().ok()).unwrap_or(0);
+            let filter = pb::filter_from_bytes(synthetic_bytes());
+            let mut msg = vec![0u8; len.max(2)];
+            msg[0..2].copy_from_slice(&off.to_be_bytes());
+            let r = common::catch(|| ReferenceIdRequest::decode(&msg).ok().map(|r| r.to_response(&filter).map(|x| x.bytes().to_vec())));
+            let want = if off as usize + len <= 512 { Some(synthetic_bytes()[off as usize..off as usize + len].to_vec()) } else { None };
+            if r != Ok(Some(want.clone())) {
+                ctx.violation("C34:server-slice-wrong", format!("offset {off} length {len}"), trace);
+            }
+            format!("got={:?} want={:?}", r.map(|x| x.map(|y| y.map(|z| z.len()))), want.map(|w| w.len()))
+        }
+        _ => {
+            // M, P, G, W: re-run the (cheap) whole part deterministically
+            part_membership(ctx);
+            part_server_wire(ctx);
+            format!("membership + wire parts re-run, violations={}", ctx.violation_count())
+        }
+    }
+}
+
+#[test]
+fn check() {
+    let ctx = Ctx::new("C34");
+    if let Some(t) = common::replay_trace() {
+        let a = replay(&ctx, &t);
+        let b = replay(&ctx, &t);
+        common::report_replay("C34", &a, &b, ctx.violation_count() > 0);
+        return;
+    }
+    ctx.rule(
+        "BFS to fixpoint over the real RemoteBloomFilter for each of the 8 valid chunk sizes x 4 server filters (synthetic with pairwise distinct non-zero words; real filters of 1, 2, 3 ids): \
+         events Request(new cookie) and Deliver(target in {outstanding, most recent stale, first ever, never issued} x shape in {exact, -4, +4, half, double, empty}); states deduplicated on the probe view of \
+         the real object + model with cookies canonicalised by role. Plus: new() over all u16; membership over 4096 window ids and all 298 subsets (size 1..3) of 12 pool ids; to_response over 606 lengths x 529 offsets; \
+         end to end source<->server runs of 36 polls with every placement of <=2 (quick) / <=3 (thorough) deviations {lost, stale replay, duplicate}; 129 lengths x 139 offsets of hand-framed requests to the real server. \
+         Distinct & non-trivial = (chunk size, filter) searches, membership subsets, e2e deviation sets.",
+    );
+    ctx.assume("the server's filter does not change during a transfer; cookies of different requests differ (they are random 64-bit values in the real client)");
+    ctx.assume("an honest server answers a request with the bytes at the requested offset; answers of other lengths are modelled as slices starting at the same offset");
+    part_new(&ctx);
+    part_search(&ctx);
+    part_membership(&ctx);
+    part_to_response(&ctx);
+    part_server_wire(&ctx);
+    part_e2e(&ctx);
+    ctx.exhaustive(true);
+    ctx.finish();
+}
